@@ -1,7 +1,917 @@
-//! C07 — harness not built yet.
+//! C07 — text normalisation is the specified context-free function of the input.
+//!
+//! Runs DefaultInputTextPlugin / ProlongedSoundMarkPlugin / IgnoreYomiganaPlugin (loaded through a config JSON into a
+//! JapaneseDictionary built from the test lexicon) on generated rewrite tables / settings / texts, records
+//! `InputBuffer::current()` and the offset map at every code-point boundary, and ships the Unicode oracle values
+//! (std case mapping, unicode-normalization) of the code points of each case to the Coq model.
 use crate::common::*;
+use serde_json::{json, Value};
+use std::collections::{BTreeMap, BTreeSet};
+use std::path::PathBuf;
+use sudachi::analysis::stateless_tokenizer::DictionaryAccess;
+use sudachi::config::ConfigBuilder;
+use sudachi::dic::build::DictBuilder;
+use sudachi::dic::dictionary::JapaneseDictionary;
+use sudachi::dic::storage::{Storage, SudachiDicData};
+use sudachi::input_text::InputBuffer;
+use unicode_normalization::{is_nfkc_quick, IsNormalized, UnicodeNormalization};
 
-pub fn run(_args: &Args) {
-    eprintln!("no harness for C07 yet");
-    std::process::exit(2);
+struct Env {
+    sys: Vec<u8>,
+    dir: PathBuf,
+    chardef: String,
+    n: usize,
+}
+
+impl Env {
+    fn new(args: &Args) -> Env {
+        let dir = args.work.join("c07tmp");
+        let _ = std::fs::remove_dir_all(&dir);
+        std::fs::create_dir_all(&dir).unwrap();
+        let dir = std::fs::canonicalize(&dir).unwrap();
+        let res = format!("{}/sudachi/tests/resources", repo());
+        let mut b = DictBuilder::new_system();
+        let conn = std::fs::read(format!("{}/matrix_10x10.def", res)).unwrap();
+        let lex = std::fs::read(format!("{}/lex.csv", res)).unwrap();
+        b.read_conn(conn.as_slice()).unwrap();
+        b.read_lexicon(lex.as_slice()).unwrap();
+        b.resolve().unwrap();
+        let mut sys = Vec::new();
+        b.compile(&mut sys).unwrap();
+        Env { sys, dir, chardef: format!("{}/char.def", res), n: 0 }
+    }
+
+    fn file(&mut self, stem: &str, content: &str) -> String {
+        self.n += 1;
+        let p = self.dir.join(format!("{}_{}.def", stem, self.n % 8));
+        std::fs::write(&p, content).unwrap();
+        p.to_string_lossy().to_string()
+    }
+
+    /// dictionary with exactly one input-text plugin
+    fn dict(&self, chardef: &str, plugin: Value) -> Result<JapaneseDictionary, String> {
+        let cfg = json!({
+            "path": self.dir.to_string_lossy(),
+            "characterDefinitionFile": chardef,
+            "inputTextPlugin": [plugin],
+            "oovProviderPlugin": [{"class": "com.worksap.nlp.sudachi.SimpleOovPlugin",
+                "oovPOS": ["名詞", "普通名詞", "一般", "*", "*", "*"], "leftId": 8, "rightId": 8, "cost": 6000}],
+        });
+        let cfg = ConfigBuilder::from_bytes(cfg.to_string().as_bytes()).map_err(|e| format!("{:?}", e))?.build();
+        match catch(|| JapaneseDictionary::from_cfg_storage(&cfg, SudachiDicData::new(Storage::Owned(self.sys.clone())))) {
+            Ok(Ok(d)) => Ok(d),
+            Ok(Err(e)) => Err(format!("{:?}", e)),
+            Err(p) => Err(format!("panic: {}", p)),
+        }
+    }
+}
+
+/// implementation output: the rewritten text and m2o at every code-point boundary of it (incl. the end)
+fn run_plugin(d: &JapaneseDictionary, text: &str) -> Result<(String, Vec<usize>), String> {
+    let r = catch(|| {
+        let mut buf = InputBuffer::from(text);
+        let p = &d.input_text_plugins()[0];
+        match p.rewrite(&mut buf) {
+            Ok(()) => {
+                let cur = buf.current().to_string();
+                let mut offs: Vec<usize> = cur.char_indices().map(|(b, _)| buf.get_original_index(b)).collect();
+                offs.push(buf.get_original_index(cur.len()));
+                Ok((cur, offs))
+            }
+            Err(e) => Err(format!("error: {:?}", e)),
+        }
+    });
+    match r {
+        Ok(x) => x,
+        Err(p) => Err(format!("panic: {}", p)),
+    }
+}
+
+fn cps(s: &str) -> Vec<u32> {
+    s.chars().map(|c| c as u32).collect()
+}
+fn cl(v: &[u32]) -> String {
+    clist(v.iter().map(|c| cn(*c)))
+}
+fn cout(r: &Result<(String, Vec<usize>), String>) -> (String, String) {
+    match r {
+        Ok((s, o)) => (format!("(Some {})", ctext(s)), clist(o.iter().map(|x| cnu(*x)))),
+        Err(_) => ("None".to_string(), "[]".to_string()),
+    }
+}
+
+// ------------------------------------------------------------------ Unicode oracle
+fn lower(c: char) -> Vec<char> {
+    c.to_lowercase().collect()
+}
+fn nfkc_of(v: &[char]) -> Vec<char> {
+    v.iter().cloned().nfkc().collect()
+}
+fn qc_yes(c: char) -> bool {
+    matches!(is_nfkc_quick(std::iter::once(c)), IsNormalized::Yes)
+}
+fn qc_text(s: &str) -> bool {
+    matches!(is_nfkc_quick(s.chars()), IsNormalized::Yes)
+}
+
+/// `mkO lowers nfkcs qcno uppers` for the code points of `text`
+fn oracle_term(text: &str) -> String {
+    let set: BTreeSet<char> = text.chars().collect();
+    let mut lowers = vec![];
+    let mut nf: BTreeMap<Vec<u32>, Vec<u32>> = BTreeMap::new();
+    let mut qcno = vec![];
+    let mut uppers = vec![];
+    for &c in &set {
+        let l = lower(c);
+        if l != vec![c] {
+            lowers.push(format!("({}, {})", cn(c as u32), clist(l.iter().map(|x| cn(*x as u32)))));
+        }
+        for src in [vec![c], l.clone()] {
+            let n = nfkc_of(&src);
+            if n != src {
+                nf.insert(src.iter().map(|x| *x as u32).collect(), n.iter().map(|x| *x as u32).collect());
+            }
+        }
+        if !qc_yes(c) {
+            qcno.push(cn(c as u32));
+        }
+        if c.is_uppercase() {
+            uppers.push(cn(c as u32));
+        }
+    }
+    format!(
+        "(mkO {} {} {} {})",
+        clist(lowers),
+        clist(nf.iter().map(|(k, v)| format!("({}, {})", cl(k), cl(v)))),
+        clist(qcno),
+        clist(uppers)
+    )
+}
+
+/// independent statement of the property on the Rust side: left to right, longest key, else lower-case then NFKC unless exempt
+fn spec_normalize(table: &[(String, String)], ign: &[char], text: &str) -> String {
+    let chars: Vec<char> = text.chars().collect();
+    let keys: Vec<(Vec<char>, &str)> = table.iter().map(|(k, v)| (k.chars().collect(), v.as_str())).collect();
+    let mut out = String::new();
+    let mut i = 0;
+    while i < chars.len() {
+        let mut best: Option<(usize, &str)> = None;
+        for (k, v) in &keys {
+            if chars[i..].starts_with(k) && best.map_or(true, |b| k.len() > b.0) {
+                best = Some((k.len(), v));
+            }
+        }
+        if let Some((n, v)) = best {
+            out.push_str(v);
+            i += n;
+            continue;
+        }
+        let l = lower(chars[i]);
+        if ign.contains(&chars[i]) {
+            out.extend(l.iter());
+        } else {
+            out.extend(nfkc_of(&l).iter());
+        }
+        i += 1;
+    }
+    out
+}
+
+// ------------------------------------------------------------------ generators: default plugin
+const ALPHA: &[char] = &[
+    'a', 'b', 'c', 'x', 'A', 'B', 'Ａ', 'ａ', 'ｶ', 'ﾞ', 'か', '\u{3099}', 'が', '㈱', 'Ⅲ', 'ⅲ', 'ǅ', 'İ', 'ß', 'ẞ', 'Σ', 'ﬁ', '①', 'ー',
+    'ｰ', '徳', '(', '（', 'ク', '\u{1F600}', '\u{301}', 'e', '\u{212B}', '\u{212A}', 'ſ', '\u{1F88}', '\u{FDFA}', '\u{345}', '⼼', 'Д',
+    'Â', 'Γ', '\u{1E9B}', '゛', '0', '９', '\u{2126}', '\u{3385}', '\u{1F80}', '\u{10400}', '\u{1D400}', '\u{2F800}', '\u{A0}',
+];
+const PLAIN: &[char] = &['a', 'b', 'c', 'x', 'e', 'か', 'ク', '徳', '0', 'ー', '(', 'ß', '\u{1F600}'];
+
+/// strings for rewrite.def columns: no white space (the file format splits on it)
+fn gen_string(rng: &mut Rng, alpha: &[char], max: usize) -> String {
+    let n = 1 + rng.below(max as u64) as usize;
+    (0..n).map(|_| *rng.pick(alpha)).map(|c| if c.is_whitespace() { 'x' } else { c }).collect()
+}
+
+struct Table {
+    pairs: Vec<(String, String)>,
+    ign: Vec<char>,
+}
+
+fn gen_table(rng: &mut Rng) -> Table {
+    let mut pairs: Vec<(String, String)> = vec![];
+    let small: &[char] = if rng.chance(1, 2) { &['a', 'b', 'c'] } else { ALPHA };
+    let nk = rng.below(7) as usize;
+    let add = |k: String, rng: &mut Rng, pairs: &mut Vec<(String, String)>| {
+        let k: String = k.chars().map(|c| if c.is_whitespace() { 'x' } else { c }).collect();
+        if pairs.iter().any(|(x, _)| *x == k) || k.starts_with('#') {
+            return;
+        }
+        let al = if rng.chance(1, 3) { ALPHA } else { PLAIN };
+        let v = gen_string(rng, al, 3);
+        pairs.push((k, v));
+    };
+    for _ in 0..nk {
+        let al = if rng.chance(2, 3) { small } else { ALPHA };
+        let k = gen_string(rng, al, 3);
+        // chains of keys that are prefixes of other keys
+        if rng.chance(1, 2) {
+            let mut ext = k.clone();
+            ext.push(*rng.pick(small));
+            add(ext.clone(), rng, &mut pairs);
+            if rng.chance(1, 3) {
+                ext.push(*rng.pick(small));
+                add(ext, rng, &mut pairs);
+            }
+        }
+        add(k, rng, &mut pairs);
+    }
+    // file order is irrelevant for the plugin (HashMap); shuffle to make sure the model does not depend on it either
+    for i in (1..pairs.len()).rev() {
+        let j = rng.below(i as u64 + 1) as usize;
+        pairs.swap(i, j);
+    }
+    let ni = rng.below(4) as usize;
+    let mut ign: Vec<char> = vec![];
+    for _ in 0..ni {
+        let c = *rng.pick(ALPHA);
+        if !ign.contains(&c) && c != '#' && !c.is_whitespace() {
+            ign.push(c);
+        }
+    }
+    Table { pairs, ign }
+}
+
+fn render_table(t: &Table, rng: &mut Rng) -> String {
+    let mut s = String::from("# generated\n");
+    for c in &t.ign {
+        s.push_str(&format!("{}\n", c));
+    }
+    if rng.chance(1, 2) {
+        s.push_str("\n# replace char list\n");
+    }
+    for (k, v) in &t.pairs {
+        s.push_str(&format!("{}{}{}\n", k, if rng.chance(1, 2) { "\t" } else { " " }, v));
+    }
+    s
+}
+
+fn gen_text(rng: &mut Rng, t: &Table, plain: bool) -> String {
+    let n = rng.below(9) as usize;
+    let mut s = String::new();
+    for _ in 0..n {
+        match rng.below(6) {
+            0 | 1 if !t.pairs.is_empty() => {
+                let k = &rng.pick(&t.pairs).0;
+                if !plain || is_plain(k) {
+                    s.push_str(k);
+                    // a key cut short / continued
+                    if rng.chance(1, 4) {
+                        s.pop();
+                    }
+                }
+            }
+            2 if !t.ign.is_empty() && !plain => s.push(*rng.pick(&t.ign)),
+            _ => s.push(*rng.pick(if plain { PLAIN } else { ALPHA })),
+        }
+    }
+    s
+}
+
+/// text that takes the fast path: quick check Yes and no character that needs lower-casing
+fn is_plain(s: &str) -> bool {
+    qc_text(s) && s.chars().all(|c| !c.is_uppercase() && lower(c) == vec![c])
+}
+
+fn table_term(t: &Table) -> String {
+    clist(t.pairs.iter().map(|(k, v)| format!("({}, {})", ctext(k), ctext(v))))
+}
+
+fn default_case(sink: &mut Sink, env: &mut Env, d: &JapaneseDictionary, t: &Table, text: &str, verbose: bool, extra_tag: &str) {
+    let r = run_plugin(d, text);
+    let want = spec_normalize(&t.pairs, &t.ign, text);
+    let (o, offs) = cout(&r);
+    let term = format!(
+        "check_default {} {} {} {} {} {} {}",
+        oracle_term(text),
+        table_term(t),
+        clist(t.ign.iter().map(|c| cn(*c as u32))),
+        ctext(text),
+        cbool(qc_text(text)),
+        o,
+        offs
+    );
+    let fast = is_plain(text);
+    let chars: Vec<char> = text.chars().collect();
+    let has_key = t.pairs.iter().any(|(k, _)| text.contains(k.as_str()));
+    let overlapping_keys = t.pairs.iter().any(|(k, _)| t.pairs.iter().any(|(k2, _)| k2 != k && k2.starts_with(k.as_str()) && text.contains(k2.as_str())));
+    let nontrivial = has_key || chars.iter().any(|c| lower(*c) != vec![*c] || !qc_yes(*c));
+    sink.tag(if fast { "path=fast" } else { "path=slow" });
+    if has_key {
+        sink.tag("text_contains_key");
+    }
+    if overlapping_keys {
+        sink.tag("text_contains_key_with_shorter_prefix_key");
+    }
+    if chars.iter().any(|c| t.ign.contains(c)) {
+        sink.tag("text_contains_exempt_char");
+    }
+    if !extra_tag.is_empty() {
+        sink.tag(extra_tag);
+    }
+    let desc = json!({"kind": "default", "text": text, "table": t.pairs, "exempt": t.ign.iter().map(|c| c.to_string()).collect::<Vec<_>>()});
+    let id = sink.case(term, desc, nontrivial);
+    match &r {
+        Ok((cur, _)) => {
+            if verbose {
+                println!("implementation: {:?}\nspecification : {:?}", cur, want);
+            }
+            if *cur != want {
+                sink.fail(id, &format!("text {:?} table {:?} exempt {:?}: implementation gives {:?}, specified normalisation is {:?}", text, t.pairs, t.ign, cur, want), "");
+            }
+        }
+        Err(e) => {
+            if verbose {
+                println!("implementation: {}", e);
+            }
+            sink.fail(id, &format!("text {:?}: plugin failed: {}", text, e), "");
+        }
+    }
+    let _ = env;
+}
+
+/// "how a span is rewritten never depends on unrelated characters elsewhere": T alone vs T next to a character that
+/// forces the general path.  Rust-side check on the implementation only.
+fn context_case(sink: &mut Sink, d: &JapaneseDictionary, t: &Table, text: &str) {
+    // the separator is not part of any key and cannot extend a match
+    let sep = '\u{A0}'; // NBSP: quick-check No, NFKC -> ' '
+    if t.pairs.iter().any(|(k, _)| k.contains(sep) || k.contains('Ａ')) || t.ign.contains(&sep) || t.ign.contains(&'Ａ') {
+        return;
+    }
+    let alone = run_plugin(d, text);
+    let with = run_plugin(d, &format!("{}{}Ａ", text, sep));
+    let pre = run_plugin(d, &format!("Ａ{}{}", sep, text));
+    let id = sink.case_rust_only(json!({"kind": "default", "context": true, "text": text, "table": t.pairs,
+        "exempt": t.ign.iter().map(|c| c.to_string()).collect::<Vec<_>>()}), true);
+    sink.tag("context_pair");
+    if let (Ok((a, _)), Ok((w, _)), Ok((p, _))) = (&alone, &with, &pre) {
+        if format!("{} a", a) != *w {
+            sink.fail(id, &format!("text {:?} table {:?}: alone -> {:?}, followed by an unrelated full-width letter -> {:?}", text, t.pairs, a, w), "");
+        } else if format!("a {}", a) != *p {
+            sink.fail(id, &format!("text {:?} table {:?}: alone -> {:?}, preceded by an unrelated full-width letter -> {:?}", text, t.pairs, a, p), "");
+        }
+    } else {
+        sink.fail(id, &format!("text {:?}: plugin failed", text), "");
+    }
+}
+
+fn default_stream(sink: &mut Sink, env: &mut Env, rng: &mut Rng, ntables: usize, per: usize) {
+    for _ in 0..ntables {
+        let t = gen_table(rng);
+        let path = env.file("rewrite", &render_table(&t, rng));
+        let d = match env.dict(&env.chardef.clone(), json!({"class": "com.worksap.nlp.sudachi.DefaultInputTextPlugin", "rewriteDef": path})) {
+            Ok(d) => d,
+            Err(e) => {
+                let id = sink.case_rust_only(json!({"kind": "default-load", "table": t.pairs}), false);
+                sink.fail(id, &format!("well-formed rewrite.def rejected: {}", e), "");
+                continue;
+            }
+        };
+        for k in 0..per {
+            let plain = k % 3 == 0;
+            let text = gen_text(rng, &t, plain);
+            default_case(sink, env, &d, &t, &text, false, "");
+            if plain && k % 2 == 0 {
+                context_case(sink, &d, &t, &text);
+            }
+        }
+    }
+}
+
+/// every scalar value alone and between two neighbours, for the shipped tables (thorough) / a stride of them (quick)
+fn sweep_shipped(sink: &mut Sink, env: &mut Env, stride: u32) {
+    for f in ["resources/rewrite.def", "sudachi/tests/resources/rewrite.def"] {
+        let path = format!("{}/{}", repo(), f);
+        let Ok(text) = std::fs::read_to_string(&path) else { continue };
+        let mut t = Table { pairs: vec![], ign: vec![] };
+        for line in text.lines() {
+            let line = line.trim();
+            if line.is_empty() || line.starts_with('#') {
+                continue;
+            }
+            let cols: Vec<&str> = line.split_whitespace().collect();
+            if cols.len() == 1 {
+                t.ign.push(cols[0].chars().next().unwrap());
+            } else {
+                t.pairs.push((cols[0].to_string(), cols[1].to_string()));
+            }
+        }
+        let d = env.dict(&env.chardef.clone(), json!({"class": "com.worksap.nlp.sudachi.DefaultInputTextPlugin", "rewriteDef": path})).unwrap();
+        let mut bad = 0u64;
+        let mut n = 0u64;
+        let mut first: Option<String> = None;
+        let mut c = 0u32;
+        while c <= 0x10FFFF {
+            if let Some(ch) = char::from_u32(c) {
+                for s in [ch.to_string(), format!("か{}ﾞ", ch), format!("Ａ{}a", ch)] {
+                    n += 1;
+                    let want = spec_normalize(&t.pairs, &t.ign, &s);
+                    match run_plugin(&d, &s) {
+                        Ok((cur, _)) if cur == want => {}
+                        other => {
+                            bad += 1;
+                            if first.is_none() {
+                                first = Some(format!("{}: text {:?} (U+{:04X}): implementation {:?}, specified {:?}", f, s, c, other.map(|x| x.0), want));
+                            }
+                        }
+                    }
+                }
+            }
+            c += stride;
+        }
+        sink.tag_n(&format!("sweep_scalar_values[{}]", f), n);
+        let id = sink.case_rust_only(json!({"kind": "sweep", "file": f, "stride": stride, "texts": n}), true);
+        if let Some(w) = first {
+            sink.fail(id, &format!("{} of {} single-character texts differ; first: {}", bad, n, w), "");
+        }
+        // a few shipped-table texts through the model as well
+        for s in ["ÂＢΓД㈱ｶﾞウ゛⼼Ⅲ", "ｶﾞｷﾞかﾞABC", "う゛か゛Ⅲⅲ⺀", "abc", ""] {
+            // only the keys that can occur in the text are sent to the model (the table has hundreds of rows)
+            let sub = Table { pairs: t.pairs.iter().filter(|(k, _)| s.contains(k.chars().next().unwrap())).cloned().collect(), ign: t.ign.iter().filter(|c| s.contains(**c)).cloned().collect() };
+            default_case(sink, env, &d, &sub, s, false, "corpus_shipped_table");
+        }
+    }
+}
+
+/// the oracle laws the theorems assume, checked over every Unicode scalar value (a test, not a proof)
+fn law_sweep(sink: &mut Sink) {
+    let mut bad: BTreeMap<&str, Vec<u32>> = BTreeMap::new();
+    let mut n = 0u64;
+    for c in 0..=0x10FFFFu32 {
+        let Some(ch) = char::from_u32(c) else { continue };
+        n += 1;
+        let l = lower(ch);
+        let n1 = nfkc_of(&[ch]);
+        let nl = nfkc_of(&l);
+        if qc_yes(ch) && nl != l {
+            bad.entry("law_qc: quick-check Yes but NFKC(lower c) != lower c").or_default().push(c);
+        }
+        for r in [&l, &n1, &nl] {
+            if r.is_empty() || (r[0] == ch && r.len() > 1) {
+                bad.entry("law_head: an expansion is empty or starts with the character itself and is longer").or_default().push(c);
+            }
+        }
+        if !ch.is_uppercase() && l != vec![ch] {
+            bad.entry("informational: is_uppercase() false but to_lowercase() differs (title-case letters)").or_default().push(c);
+        }
+    }
+    sink.tag_n("oracle_law_sweep_scalar_values", n);
+    let id = sink.case_rust_only(json!({"kind": "law-sweep", "scalar_values": n}), true);
+    for (k, v) in &bad {
+        let show: Vec<String> = v.iter().take(40).map(|c| format!("U+{:04X}", c)).collect();
+        sink.extra(&format!("oracle_sweep: {}", k), json!(show));
+        if k.starts_with("law_") {
+            sink.fail(id, &format!("oracle law violated for {} scalar values: {}: {}", v.len(), k, show.join(" ")), "");
+        }
+    }
+}
+
+// ------------------------------------------------------------------ prolonged sound marks
+const PSM_MARKS: &[char] = &['ー', '〜', '〰', '-', '^', ']', '[', '\\', 'a', '~', '&', '\u{1F600}', '.'];
+const PSM_OTHER: &[char] = &['ゴ', 'ル', 'x', '。', '\u{10400}', 'é'];
+
+fn psm_stream(sink: &mut Sink, env: &mut Env, rng: &mut Rng, nsets: usize, per: usize) {
+    for i in 0..nsets {
+        let mut marks: Vec<char> = vec![];
+        if i == 0 {
+            marks = vec!['ー', '〜', '〰'];
+        } else {
+            for _ in 0..(1 + rng.below(4)) {
+                let c = *rng.pick(PSM_MARKS);
+                if !marks.contains(&c) {
+                    marks.push(c);
+                }
+            }
+        }
+        let sym: Option<String> = match rng.below(5) {
+            0 => None,
+            1 => Some("ー".into()),
+            2 => Some("==".into()),
+            3 => Some("".into()),
+            _ => Some(marks[0].to_string()),
+        };
+        let mut plugin = json!({"class": "com.worksap.nlp.sudachi.ProlongedSoundMarkPlugin",
+            "prolongedSoundMarks": marks.iter().map(|c| c.to_string()).collect::<Vec<_>>()});
+        if let Some(s) = &sym {
+            plugin["replacementSymbol"] = json!(s);
+        }
+        let d = match env.dict(&env.chardef.clone(), plugin) {
+            Ok(d) => d,
+            Err(e) => {
+                let id = sink.case_rust_only(json!({"kind": "psm-load", "marks": marks.iter().map(|c| c.to_string()).collect::<Vec<_>>()}), false);
+                sink.fail(id, &format!("mark set rejected: {}", e), "");
+                continue;
+            }
+        };
+        let symv = sym.clone().unwrap_or("ー".to_string());
+        for _ in 0..per {
+            let n = rng.below(10) as usize;
+            let text: String = (0..n).map(|_| if rng.chance(3, 5) { *rng.pick(&marks) } else if rng.chance(1, 2) { *rng.pick(PSM_MARKS) } else { *rng.pick(PSM_OTHER) }).collect();
+            psm_case(sink, &d, &marks, &symv, &text, false);
+        }
+    }
+}
+
+fn psm_oracle(marks: &[char], sym: &str, text: &str) -> String {
+    let ch: Vec<char> = text.chars().collect();
+    let mut out = String::new();
+    let mut i = 0;
+    while i < ch.len() {
+        let mut j = i;
+        while j < ch.len() && marks.contains(&ch[j]) {
+            j += 1;
+        }
+        if j - i >= 2 {
+            out.push_str(sym);
+            i = j;
+        } else {
+            out.push(ch[i]);
+            i += 1;
+        }
+    }
+    out
+}
+
+fn psm_case(sink: &mut Sink, d: &JapaneseDictionary, marks: &[char], sym: &str, text: &str, verbose: bool) {
+    let r = run_plugin(d, text);
+    let (o, offs) = cout(&r);
+    let term = format!("check_psm {} {} {} {} {}", clist(marks.iter().map(|c| cn(*c as u32))), ctext(sym), ctext(text), o, offs);
+    let want = psm_oracle(marks, sym, text);
+    let ch: Vec<char> = text.chars().collect();
+    let nontrivial = ch.windows(2).any(|w| marks.contains(&w[0]) && marks.contains(&w[1]));
+    sink.tag(if nontrivial { "psm_has_run" } else { "psm_no_run" });
+    let desc = json!({"kind": "psm", "text": text, "marks": marks.iter().map(|c| c.to_string()).collect::<Vec<_>>(), "symbol": sym});
+    let id = sink.case(term, desc, nontrivial);
+    if verbose {
+        println!("implementation: {:?}\nspecification : {:?}", r, want);
+    }
+    match &r {
+        Ok((cur, _)) if *cur == want => {}
+        other => sink.fail(id, &format!("marks {:?} symbol {:?} text {:?}: implementation {:?}, specified {:?}", marks, sym, text, other, want), ""),
+    }
+}
+
+// ------------------------------------------------------------------ yomigana
+const Y_KANJI: &[char] = &['徳', '島', '行', '漢'];
+const Y_READ: &[char] = &['と', 'く', 'し', 'マ', 'イ'];
+const Y_BR: &[char] = &['(', ')', '（', '）', '[', ']', '《', '》'];
+const Y_OTHER: &[char] = &['a', 'に', '。', '\u{10400}'];
+
+struct YomiCfg {
+    kanji: Vec<(u32, u32)>,
+    reading: Vec<(u32, u32)>,
+    lbs: Vec<char>,
+    rbs: Vec<char>,
+    maxlen: usize,
+    chardef: String,
+}
+
+fn gen_yomi(rng: &mut Rng, first: bool) -> YomiCfg {
+    // classes as lists of inclusive ranges; mostly the natural ones, sometimes overlapping with brackets / each other
+    let mut kanji: Vec<(u32, u32)> = vec![(0x4E00, 0x9FFF)];
+    let mut reading: Vec<(u32, u32)> = vec![(0x3041, 0x309F), (0x30A1, 0x30FF)];
+    let mut lbs = vec!['(', '（'];
+    let mut rbs = vec![')', '）'];
+    let mut maxlen = 4;
+    if !first {
+        if rng.chance(1, 4) {
+            reading.push((0x28, 0x29)); // brackets are readings too: greedy R{1,n} must backtrack
+        }
+        if rng.chance(1, 5) {
+            kanji.push((0x3068, 0x3068)); // 'と' is both kanji and reading
+        }
+        if rng.chance(1, 5) {
+            kanji.push((0x61, 0x61));
+        }
+        if rng.chance(1, 3) {
+            lbs = (0..1 + rng.below(3)).map(|_| *rng.pick(Y_BR)).collect();
+            rbs = (0..1 + rng.below(3)).map(|_| *rng.pick(Y_BR)).collect();
+        }
+        maxlen = 1 + rng.below(4) as usize;
+    }
+    lbs.dedup();
+    rbs.dedup();
+    let mut cd = String::new();
+    for (lo, hi) in &kanji {
+        cd.push_str(&format!("0x{:04X}..0x{:04X} KANJI\n", lo, hi));
+    }
+    for (i, (lo, hi)) in reading.iter().enumerate() {
+        cd.push_str(&format!("0x{:04X}..0x{:04X} {}\n", lo, hi, if i % 2 == 0 { "HIRAGANA" } else { "KATAKANA" }));
+    }
+    cd.push_str("0x0030..0x0039 NUMERIC\n");
+    YomiCfg { kanji, reading, lbs, rbs, maxlen, chardef: cd }
+}
+
+fn yomi_stream(sink: &mut Sink, env: &mut Env, rng: &mut Rng, ncfg: usize, per: usize) {
+    for i in 0..ncfg {
+        let y = gen_yomi(rng, i == 0);
+        let cd = env.file("char", &y.chardef);
+        let plugin = json!({"class": "com.worksap.nlp.sudachi.IgnoreYomiganaPlugin",
+            "leftBrackets": y.lbs.iter().map(|c| c.to_string()).collect::<Vec<_>>(),
+            "rightBrackets": y.rbs.iter().map(|c| c.to_string()).collect::<Vec<_>>(),
+            "maxYomiganaLength": y.maxlen});
+        let d = match env.dict(&cd, plugin) {
+            Ok(d) => d,
+            Err(e) => {
+                let id = sink.case_rust_only(json!({"kind": "yomi-load", "chardef": y.chardef}), false);
+                sink.fail(id, &format!("yomigana settings rejected: {}", e), "");
+                continue;
+            }
+        };
+        if i == 0 {
+            for s in ["徳島（とくしま）に行く", "徳島（とくしま）に行（い）く", "徳島(とくしま)に行（い）く", "徳島に（よく）行く", "徳島（ながいよみ）に行く", "徳島（とくしま）"] {
+                yomi_case(sink, &d, &y, s, false);
+            }
+        }
+        for _ in 0..per {
+            let n = rng.below(12) as usize;
+            let mut s = String::new();
+            for _ in 0..n {
+                match rng.below(8) {
+                    0 | 1 => s.push(*rng.pick(Y_KANJI)),
+                    2 | 3 => s.push(*rng.pick(Y_READ)),
+                    4 => s.push(*rng.pick(&y.lbs)),
+                    5 => s.push(*rng.pick(&y.rbs)),
+                    6 => {
+                        // a complete candidate: kanji, bracket, readings, bracket
+                        s.push(*rng.pick(Y_KANJI));
+                        s.push(*rng.pick(&y.lbs));
+                        for _ in 0..rng.below(y.maxlen as u64 + 2) {
+                            s.push(*rng.pick(Y_READ));
+                        }
+                        s.push(*rng.pick(&y.rbs));
+                    }
+                    _ => {
+                        let al = if rng.chance(1, 2) { Y_OTHER } else { Y_BR };
+                        s.push(*rng.pick(al))
+                    }
+                }
+            }
+            yomi_case(sink, &d, &y, &s, false);
+        }
+    }
+}
+
+fn yomi_oracle(y: &YomiCfg, text: &str) -> String {
+    let inr = |rs: &[(u32, u32)], c: char| rs.iter().any(|(a, b)| *a <= c as u32 && c as u32 <= *b);
+    let ch: Vec<char> = text.chars().collect();
+    let mut out = String::new();
+    let mut i = 0;
+    while i < ch.len() {
+        let mut matched = None;
+        if i + 1 < ch.len() && inr(&y.kanji, ch[i]) && y.lbs.contains(&ch[i + 1]) {
+            // largest k in 1..=maxlen with readings then a right bracket
+            let mut k = 0;
+            while k < y.maxlen && i + 2 + k < ch.len() && inr(&y.reading, ch[i + 2 + k]) {
+                k += 1;
+            }
+            while k >= 1 {
+                if i + 2 + k < ch.len() && y.rbs.contains(&ch[i + 2 + k]) {
+                    matched = Some(k);
+                    break;
+                }
+                k -= 1;
+            }
+        }
+        out.push(ch[i]);
+        match matched {
+            Some(k) => i += k + 3,
+            None => i += 1,
+        }
+    }
+    out
+}
+
+fn yomi_case(sink: &mut Sink, d: &JapaneseDictionary, y: &YomiCfg, text: &str, verbose: bool) {
+    let r = run_plugin(d, text);
+    let (o, offs) = cout(&r);
+    let rl = |rs: &[(u32, u32)]| clist(rs.iter().map(|(a, b)| format!("({}, {})", cn(*a), cn(*b))));
+    let term = format!(
+        "check_yomi {} {} {} {} {} {} {} {}",
+        rl(&y.kanji),
+        rl(&y.reading),
+        clist(y.lbs.iter().map(|c| cn(*c as u32))),
+        clist(y.rbs.iter().map(|c| cn(*c as u32))),
+        y.maxlen,
+        ctext(text),
+        o,
+        offs
+    );
+    let want = yomi_oracle(y, text);
+    let nontrivial = want != text;
+    sink.tag(if nontrivial { "yomi_removed" } else { "yomi_unchanged" });
+    let desc = json!({"kind": "yomi", "text": text, "kanji": y.kanji, "reading": y.reading, "chardef": y.chardef, "maxlen": y.maxlen,
+        "lbs": y.lbs.iter().map(|c| c.to_string()).collect::<Vec<_>>(), "rbs": y.rbs.iter().map(|c| c.to_string()).collect::<Vec<_>>()});
+    let id = sink.case(term, desc, nontrivial);
+    if verbose {
+        println!("implementation: {:?}\nspecification : {:?}", r, want);
+    }
+    match &r {
+        Ok((cur, _)) if *cur == want => {}
+        other => sink.fail(id, &format!("yomigana text {:?} (max {} brackets {:?}/{:?}): implementation {:?}, specified {:?}", text, y.maxlen, y.lbs, y.rbs, other, want), ""),
+    }
+}
+
+// ------------------------------------------------------------------ the three plugins in a row
+/// Default -> ProlongedSoundMark -> IgnoreYomigana on one buffer (the order of the shipped configuration): the text is the
+/// composition of the three specified functions and nothing else changes.  Implementation-only check.
+fn chain_dict(env: &mut Env, t: &Table, rng: &mut Rng) -> Option<(JapaneseDictionary, YomiCfg)> {
+    let path = env.file("rewrite", &render_table(t, rng));
+    let y = gen_yomi(rng, true);
+    let cd = env.file("char", &y.chardef);
+    let cfg = json!({
+        "path": env.dir.to_string_lossy(), "characterDefinitionFile": cd,
+        "inputTextPlugin": [
+            {"class": "com.worksap.nlp.sudachi.DefaultInputTextPlugin", "rewriteDef": path},
+            {"class": "com.worksap.nlp.sudachi.ProlongedSoundMarkPlugin", "prolongedSoundMarks": ["ー", "〜", "〰"], "replacementSymbol": "ー"},
+            {"class": "com.worksap.nlp.sudachi.IgnoreYomiganaPlugin", "leftBrackets": ["(", "（"], "rightBrackets": [")", "）"], "maxYomiganaLength": 4}],
+        "oovProviderPlugin": [{"class": "com.worksap.nlp.sudachi.SimpleOovPlugin",
+            "oovPOS": ["名詞", "普通名詞", "一般", "*", "*", "*"], "leftId": 8, "rightId": 8, "cost": 6000}],
+    });
+    let cfg = ConfigBuilder::from_bytes(cfg.to_string().as_bytes()).unwrap().build();
+    JapaneseDictionary::from_cfg_storage(&cfg, SudachiDicData::new(Storage::Owned(env.sys.clone()))).ok().map(|d| (d, y))
+}
+
+fn chain_case(sink: &mut Sink, d: &JapaneseDictionary, y: &YomiCfg, t: &Table, text: &str, verbose: bool) {
+    let marks = vec!['ー', '〜', '〰'];
+    let got = catch(|| {
+        let mut buf = InputBuffer::from(text);
+        for p in d.input_text_plugins() {
+            p.rewrite(&mut buf).map_err(|e| format!("{:?}", e))?;
+        }
+        let cur = buf.current().to_string();
+        // the offset map stays monotone and anchored through the three batches
+        let offs: Vec<usize> = cur.char_indices().map(|(b, _)| buf.get_original_index(b)).chain(std::iter::once(buf.get_original_index(cur.len()))).collect();
+        Ok::<_, String>((cur, offs))
+    });
+    let want = yomi_oracle(y, &psm_oracle(&marks, "ー", &spec_normalize(&t.pairs, &t.ign, text)));
+    if verbose {
+        println!("implementation: {:?}\nspecification : {:?}", got, want);
+    }
+    let id = sink.case_rust_only(json!({"kind": "chain", "text": text, "table": t.pairs, "exempt": t.ign.iter().map(|c| c.to_string()).collect::<Vec<_>>()}), want != text);
+    sink.tag("chain_of_three_plugins");
+    match got {
+        Ok(Ok((cur, offs))) => {
+            if cur != want {
+                sink.fail(id, &format!("three plugins in a row on {:?} (table {:?}): implementation {:?}, composition of the specifications {:?}", text, t.pairs, cur, want), "");
+            } else if offs.windows(2).any(|w| w[0] > w[1]) || offs.first() != Some(&0) || offs.last() != Some(&text.len()) {
+                sink.fail(id, &format!("three plugins in a row on {:?}: offset map {:?} is not monotone from 0 to {}", text, offs, text.len()), "");
+            }
+        }
+        other => sink.fail(id, &format!("three plugins in a row on {:?}: {:?}", text, other), ""),
+    }
+}
+
+fn chain_stream(sink: &mut Sink, env: &mut Env, rng: &mut Rng, ncfg: usize, per: usize) {
+    for _ in 0..ncfg {
+        let t = gen_table(rng);
+        let Some((d, y)) = chain_dict(env, &t, rng) else { continue };
+        for _ in 0..per {
+            let mut text = gen_text(rng, &t, false);
+            for _ in 0..rng.below(4) {
+                match rng.below(3) {
+                    0 => text.push_str("徳（とク）"),
+                    1 => text.push_str("ーー〜"),
+                    _ => text.push_str("島(ｶﾞ)"),
+                }
+                text.push(*rng.pick(ALPHA));
+            }
+            chain_case(sink, &d, &y, &t, &text, false);
+        }
+    }
+}
+
+// ------------------------------------------------------------------ malformed stream
+/// table_wf (distinct, non-empty keys) is what read_rewrite_lists guarantees: tables violating it must be rejected
+fn malformed(sink: &mut Sink, env: &mut Env) {
+    let bads = ["a x\na y\n", "ab x\nc d\nab x\n", "a b c\n", "ab\n", "a\tx\ty\n", "Ⅲ\nａｂ\n"];
+    let mut rejected = 0u64;
+    for b in bads {
+        let path = env.file("rewrite", b);
+        match env.dict(&env.chardef.clone(), json!({"class": "com.worksap.nlp.sudachi.DefaultInputTextPlugin", "rewriteDef": path})) {
+            Err(e) if !e.starts_with("panic") => rejected += 1,
+            other => {
+                let id = sink.case_rust_only(json!({"kind": "default-malformed", "rewrite_def": b}), false);
+                sink.fail(id, &format!("malformed rewrite.def {:?} was not rejected: {:?}", b, other.err()), "");
+            }
+        }
+    }
+    sink.tag_n("malformed_table_rejected", rejected);
+}
+
+// ------------------------------------------------------------------ entry
+fn strs(v: &Value) -> Vec<char> {
+    v.as_array().map(|a| a.iter().filter_map(|x| x.as_str().and_then(|s| s.chars().next())).collect()).unwrap_or_default()
+}
+fn ranges(v: &Value) -> Vec<(u32, u32)> {
+    v.as_array().map(|a| a.iter().map(|x| (x[0].as_u64().unwrap() as u32, x[1].as_u64().unwrap() as u32)).collect()).unwrap_or_default()
+}
+
+fn replay(sink: &mut Sink, env: &mut Env, case: &Value) {
+    let text = case["text"].as_str().unwrap_or("").to_string();
+    match case["kind"].as_str().unwrap_or("") {
+        "default" => {
+            let t = Table {
+                pairs: case["table"].as_array().map(|a| a.iter().map(|p| (p[0].as_str().unwrap().to_string(), p[1].as_str().unwrap().to_string())).collect()).unwrap_or_default(),
+                ign: strs(&case["exempt"]),
+            };
+            let mut rng = Rng::new(1);
+            let body = render_table(&t, &mut rng);
+            println!("rewrite.def:\n{}text: {:?}", body, text);
+            let path = env.file("rewrite", &body);
+            let d = env.dict(&env.chardef.clone(), json!({"class": "com.worksap.nlp.sudachi.DefaultInputTextPlugin", "rewriteDef": path})).unwrap();
+            if case["context"].as_bool().unwrap_or(false) {
+                for s in [text.clone(), format!("{}\u{A0}Ａ", text), format!("Ａ\u{A0}{}", text)] {
+                    println!("{:?} -> {:?}", s, run_plugin(&d, &s).map(|x| x.0));
+                }
+                context_case(sink, &d, &t, &text);
+            } else {
+                default_case(sink, env, &d, &t, &text, true, "");
+            }
+        }
+        "psm" => {
+            let marks = strs(&case["marks"]);
+            let sym = case["symbol"].as_str().unwrap_or("ー").to_string();
+            let d = env.dict(&env.chardef.clone(), json!({"class": "com.worksap.nlp.sudachi.ProlongedSoundMarkPlugin",
+                "prolongedSoundMarks": marks.iter().map(|c| c.to_string()).collect::<Vec<_>>(), "replacementSymbol": sym})).unwrap();
+            println!("marks {:?} symbol {:?} text {:?}", marks, sym, text);
+            psm_case(sink, &d, &marks, &sym, &text, true);
+        }
+        "yomi" => {
+            let y = YomiCfg { kanji: ranges(&case["kanji"]), reading: ranges(&case["reading"]), lbs: strs(&case["lbs"]), rbs: strs(&case["rbs"]),
+                maxlen: case["maxlen"].as_u64().unwrap_or(4) as usize, chardef: case["chardef"].as_str().unwrap_or("").to_string() };
+            let cd = env.file("char", &y.chardef);
+            let d = env.dict(&cd, json!({"class": "com.worksap.nlp.sudachi.IgnoreYomiganaPlugin",
+                "leftBrackets": y.lbs.iter().map(|c| c.to_string()).collect::<Vec<_>>(),
+                "rightBrackets": y.rbs.iter().map(|c| c.to_string()).collect::<Vec<_>>(), "maxYomiganaLength": y.maxlen})).unwrap();
+            println!("text {:?}", text);
+            yomi_case(sink, &d, &y, &text, true);
+        }
+        "chain" => {
+            let t = Table {
+                pairs: case["table"].as_array().map(|a| a.iter().map(|p| (p[0].as_str().unwrap().to_string(), p[1].as_str().unwrap().to_string())).collect()).unwrap_or_default(),
+                ign: strs(&case["exempt"]),
+            };
+            let mut rng = Rng::new(1);
+            let (d, y) = chain_dict(env, &t, &mut rng).unwrap();
+            println!("table {:?} exempt {:?} text {:?}", t.pairs, t.ign, text);
+            chain_case(sink, &d, &y, &t, &text, true);
+        }
+        "sweep" => sweep_shipped(sink, env, 1),
+        "law-sweep" => law_sweep(sink),
+        k => println!("cannot replay case kind {:?}", k),
+    }
+}
+
+fn directed(sink: &mut Sink, env: &mut Env, rng: &mut Rng) {
+    // corpus first: the reproduced defect (key that is a prefix of another key, general path) and friends
+    let tables: Vec<(Vec<(&str, &str)>, Vec<char>, Vec<&str>)> = vec![
+        (vec![("a", "x"), ("ab", "y")], vec![], vec!["abc", "abcＡ", "abＡ", "Ａab", "aab", "ba", "ab"]),
+        (vec![("ab", "y"), ("a", "x"), ("abc", "zz")], vec![], vec!["abcabＡa", "abcab", "abx\u{3099}"]),
+        (vec![("か\u{3099}", "が"), ("ｶﾞ", "ガ")], vec!['Ⅲ', '゛'], vec!["か\u{3099}ｶﾞⅢ", "ｶﾞ", "ｶ゛", "Ⅲⅲ"]),
+        (vec![("A", "b"), ("b", "A")], vec!['Ａ'], vec!["AbＡ", "ab", "Ab"]),
+        (vec![], vec![], vec!["ǅ", "\u{1F88}", "İ", "ẞ", "Σ", "\u{FDFA}", "e\u{301}", "\u{212B}", "\u{3385}", ""]),
+        (vec![], vec!['ǅ', 'İ', '㈱', 'Ａ'], vec!["ǅ", "İ", "㈱", "Ａ", "aǅ"]),
+    ];
+    for (pairs, ign, texts) in tables {
+        let t = Table { pairs: pairs.iter().map(|(k, v)| (k.to_string(), v.to_string())).collect(), ign };
+        let path = env.file("rewrite", &render_table(&t, rng));
+        let d = env.dict(&env.chardef.clone(), json!({"class": "com.worksap.nlp.sudachi.DefaultInputTextPlugin", "rewriteDef": path})).unwrap();
+        for s in texts {
+            default_case(sink, env, &d, &t, s, false, "directed");
+        }
+        context_case(sink, &d, &t, "abc");
+    }
+}
+
+pub fn run(args: &Args) {
+    let mut sink = Sink::new("C07", &args.out, &["Model.Normalize"], args.seed, &args.tier);
+    sink.shard_size = 120;
+    sink.rule("(a) DefaultInputTextPlugin: random rewrite.def tables (0..6 keys of 1..3 code points over {a,b,c} or a 53-character alphabet of upper-case / full-width / compatibility / combining / title-case / astral characters; chains of keys that are prefixes of other keys; multi-character values; 0..3 exempt characters) x texts built from keys, truncated keys, exempt characters and the alphabet; one third of the texts are fast-path texts, half of those are re-run next to an unrelated full-width letter (context pair); (b) ProlongedSoundMarkPlugin: random mark sets incl. regex-special characters x symbols (default, multi-character, empty) x texts dense in marks; (c) IgnoreYomiganaPlugin: char.def / bracket sets / max length (classes overlapping each other and the brackets) x texts dense in kanji-bracket-reading-bracket candidates; (d) every Unicode scalar value alone and between neighbours for the shipped tables (stride in the quick tier), and the oracle laws over all scalar values. non-trivial = a key occurs or some character changes (a), a run of >= 2 marks occurs (b), something is removed (c); distinct by generated Coq term");
+    let mut env = Env::new(args);
+    if let Some(p) = &args.replay {
+        let v: Value = serde_json::from_str(&std::fs::read_to_string(p).unwrap()).unwrap();
+        replay(&mut sink, &mut env, &v["case"]);
+        sink.finish();
+        return;
+    }
+    let mut rng = Rng::new(args.seed);
+    directed(&mut sink, &mut env, &mut rng);
+    law_sweep(&mut sink);
+    sweep_shipped(&mut sink, &mut env, if args.thorough() { 1 } else { 37 });
+    default_stream(&mut sink, &mut env, &mut rng, args.n(320, 4000), 8);
+    psm_stream(&mut sink, &mut env, &mut rng, args.n(70, 800), 8);
+    yomi_stream(&mut sink, &mut env, &mut rng, args.n(70, 800), 10);
+    chain_stream(&mut sink, &mut env, &mut rng, args.n(40, 600), 8);
+    malformed(&mut sink, &mut env);
+    let _ = std::fs::remove_dir_all(&env.dir);
+    sink.finish();
 }
